@@ -132,21 +132,30 @@ fn run_item(chain: &SimChain, comp: &mut SimCompiler, item: &HistItem, log: &mut
     w.cfg.lat_max = 0;
     let w = w.into_shared();
     w.lock().unwrap().cfg.lat_max = 0;
-    let res = resolve_once(&w, &item.tx, &item.args, comp, item.max_rounds, cancel);
+    // whenever nothing has to be injected into the compiler, the real instance is handed to the
+    // resolver directly; the wrapper is only in the way then (it is needed to fail one compile or
+    // one compiler op, and by the scratch run of DirectCompile to record the rounds)
+    let plain = matches!(item.ending, Ending::Natural | Ending::ErrAtCall(_) | Ending::CancelAfter(_)) && !comp.record;
+    let (outcome, polls, compiles) = if plain {
+        let (o, polls) = resolve_plain(&w, &item.tx, &item.args, &mut comp.inner, item.max_rounds, cancel);
+        (o, polls, usize::MAX)
+    } else {
+        let res = resolve_once(&w, &item.tx, &item.args, comp, item.max_rounds, cancel);
+        (res.outcome, res.polls, comp.compiles)
+    };
     comp.fail_compile_at = None;
     comp.fail_op_at = None;
     let g = w.lock().unwrap();
     log.push(format!(
-        "{} [{:?}] -> {} ({} polls, {} store calls, {} compile rounds, body left: {})",
+        "{} [{:?}] -> {} ({} polls, {} store calls, body left: {})",
         item.name,
         item.ending,
-        res.outcome.kind(),
-        res.polls,
+        outcome.kind(),
+        polls,
         g.res_calls,
-        res.rounds.len(),
         comp.inner.latest_tx_body.is_some()
     ));
-    (res.outcome, res.polls, g.res_calls, comp.compiles)
+    (outcome, polls, g.res_calls, compiles)
 }
 
 fn same(a: &Outcome, b: &Outcome) -> bool {
@@ -390,21 +399,19 @@ fn inner(t: &mut Tape, rep: &mut WorldReport) {
             rep.probe("target-read-stale-body");
         }
         if !same(&hist, &fresh) {
+            let _ = (hist_compiles, fresh_compiles, cap);
+            let pair = match (&hist, &fresh) {
+                (Outcome::Ok(_), Outcome::Ok(_)) => "both-succeed-differently",
+                (Outcome::Ok(_), _) => "succeeds-only-after-the-history",
+                (_, Outcome::Ok(_)) => "succeeds-only-on-a-fresh-instance",
+                _ => "fail-differently",
+            };
             let shape = if target_min_utxo && stale_body {
-                // which way can the stale first round of the target have mattered?
-                if matches!(hist, Outcome::Err { .. } | Outcome::Panic(_)) && hist_compiles == 0 {
-                    "min_utxo+stale-body/first-round-fails"
-                } else if matches!(fresh, Outcome::Err { .. }) && fresh_compiles == 0 {
-                    "min_utxo+stale-body/fresh-first-round-fails"
-                } else if hist_compiles >= cap || fresh_compiles >= cap {
-                    "min_utxo+stale-body/differs-at-round-cap"
-                } else {
-                    "min_utxo+stale-body/converged-differently"
-                }
+                format!("min_utxo+body-left-by-history/{pair}")
             } else if target_min_utxo {
-                "target-uses-min_utxo"
+                format!("target-uses-min_utxo/{pair}")
             } else {
-                "target-without-min_utxo"
+                format!("target-without-min_utxo/{pair}")
             };
             rep.violate(
                 "C20",
